@@ -1,5 +1,6 @@
 import Cello.Lifecycle
 import Cello.LifecycleSrc
+import Cello.LifecycleMem
 import Driver.Common
 /- driver for engine `life` (C06): interprets the op files of harness/h_life.c on the model `Cello.Life` and prints the
    same `O` lines: per op the ledger events it caused (in order; sorted in `uno` histories), the pending order of the
@@ -22,6 +23,8 @@ structure Hist where
   raises : List Nat := []
   /-- everything released so far -/
   freed : List Nat := []
+  /-- the collector's own tables (Cello/LifecycleMem.lean), run on the statement lists read from the source -/
+  mem : Mem.MSt := Mem.MSt.init
 
 def Hist.kindOf (h : Hist) (a : Nat) : Option Char := (h.kinds.find? (·.1 == a)).map (·.2)
 def Hist.allocated (h : Hist) (a : Nat) : Bool := h.kinds.any (·.1 == a)
@@ -58,11 +61,13 @@ def observe (tag : String) (h : Hist) (pend : List Nat) (withReg : Bool) (setOnl
   let evs := if h.ordered && !setOnly then evs else evs.foldr insertEv []
   let evS := ",".intercalate (evs.map showEv)
   let pendS := if !h.ordered || setOnly || pend.isEmpty then "-" else ",".intercalate (pend.map toString)
+  -- table blocks of the collector that are allocated now: entry tables, pending lists
+  let tb := s!" tb={h.mem.liveEntries},{h.mem.liveFreelist}"
   let base := s!"O {tag} ev={evS} pend={pendS}"
-  if !withReg then base else
+  if !withReg then base ++ tb else
   let regs := (h.st.reg.map (fun e => (e.addr, e.root))).foldr insertNat []
   let regS := ",".intercalate (regs.map (fun (a, r) => toString a ++ (if r then "r" else "")))
-  s!"{base} reg={regS} run={if h.st.running then 1 else 0} mit={h.st.mitems}"
+  s!"{base} reg={regS} run={if h.st.running then 1 else 0} mit={h.st.mitems}{tb}"
 
 /-- the destructors of the kind-q objects, re-declared in the state the op starts from: a collection that one of their
     registrations runs marks what the program reaches now (roots, the held objects) and the object being registered -/
@@ -70,6 +75,20 @@ def declareDtors (h : Hist) (s : St) : St :=
   let ms := markSet s h.held
   h.qs.foldl (fun st (q, cs) =>
     step sourceCfg st (Op.dtor q (cs.map (fun (c, _) => ⟨c, ms ++ [c], []⟩)))) { s with dalloc := [] }
+
+/-- the events of the collector's own memory that an op causes, as far as the observation after the op can tell them
+    apart (rehashes replace one live table by another; a sweep that an exception left keeps its pending list) -/
+def memEvents (s0 : St) (mem : Mem.MSt) (op : Op) (raised : Bool) : List Mem.Ev :=
+  let sweepEvs : List Mem.Ev := [.sweepBegin false] ++ (if raised then [] else [.sweepEnd])
+  match op with
+  | .new _ k _ _ _ | .alloc _ k _ _ =>
+    if k == .raw || !s0.running then [] else
+    [Mem.Ev.set (mem.entries != .live)] ++ (if s0.reg.length + 1 > s0.mitems then sweepEvs else [])
+  | .del _ k => if k == .raw || !s0.running then [] else [.rem false]
+  | .delNull => if !s0.running then [] else [.rem false]
+  | .collect _ _ => sweepEvs
+  | .teardown _ => [.delBegin false] ++ (if raised then [] else [.delEnd])
+  | _ => []
 
 def doOp (h : Hist) (tag : String) (op : Op) (withReg : Bool := true) (after : List Op := []) : Hist × String :=
   let s0 := declareDtors h { h.st with log := [] }
@@ -86,6 +105,7 @@ def doOp (h : Hist) (tag : String) (op : Op) (withReg : Bool := true) (after : L
   let ran := h.qs.filter (fun (q, cs) => !cs.isEmpty && s1.log.contains (Ev.fin q))
   let born := ran.flatMap (fun (_, cs) => cs.map (·.1))
   let h' := { h with st := s1, kinds := born.map (fun c => (c, 'p')) ++ h.kinds,
+                     mem := Mem.run Mem.Progs.source h.mem (memEvents s0 h.mem op raised),
                      reserved := h.reserved.filter (fun c => !born.contains c),
                      freed := s1.log.filterMap (fun e => match e with | .free a => some a | _ => none) ++ h.freed }
   -- a registration that runs a threshold collection: the harness compares the set of finalised objects only (the real
